@@ -132,10 +132,11 @@ UNITS = [
     # the integer methods of EUI (state: _module.version, _value)
     ("netaddr/eui/__init__.py", "pysrc_eui_gen.v", "", " Model.Eui Model.SrcPreludeEui",
      [("EUI", m, {}) for m in ("version", "value", "__int__", "oui", "is_iab", "eui64", "modified_eui64", "ipv6", "ipv6_link_local")]),
-    # the address classification predicates of BaseIP on an IPAddress receiver; the block tables they consult are module-level
+    # the address classification predicates of BaseIP, one copy per receiver class; the block tables they consult are module-level
     # names whose VALUES are regenerated by harness/gen/classify.py (coq/Gen/classify_gen.v: rows (kind, version, a, b)): UNIT_TABLES
     (IPFILE, "pysrc_classify_gen.v", "", " Gen.classify_gen",
-     [("IPAddress", m, {}) for m in ("is_multicast", "is_unicast", "is_loopback", "is_link_local", "is_private", "is_reserved")]),
+     [(c, m, {}) for c in ("IPAddress", "IPNetwork", "IPRange")
+      for m in ("is_multicast", "is_unicast", "is_loopback", "is_link_local", "is_private", "is_reserved")]),
 ]
 # module-level names of a unit's source file that stand for generated tables: output file -> {name: type}; `row` = one
 # IPNetwork / IPRange object as the row (kind, version, value-or-start, prefixlen-or-end) of classify_gen.v
